@@ -903,6 +903,7 @@ def shards(tier):
     items.append({"kind": "pfe-walk", "tier": tier})
     items.append({"kind": "pfc", "tier": tier})
     items.append({"kind": "units", "tier": tier})
+    items.append({"kind": "s1big", "tier": tier})
     for route in ("constructor", "unpack", "from_sp_header"):
         for first in range(len(ridh_events())):
             items.append({"kind": "ridhist", "route": route, "first": first, "depth": 3 if tier == "quick" else 4})
@@ -935,7 +936,28 @@ def s1_cases(item):
                                        "tm": tm_diag(i) if route == "ctor" else [E11[i % 8], 0, 0, 0, 0]}
 
 
+def s1_big_cases():
+    """the largest failure reports a space packet can carry (65542 octets in all) and the ones one octet smaller"""
+    n = 0
+    for sub, sw in ((2, 0), (6, 2), (8, 0), (4, 0)):
+        for T in (0, 7):
+            for ew in (1, 8):
+                top = 65542 - 6 - 7 - T - 4 - sw - ew - 2
+                for dl in (top - 1, top):
+                    for route in ("helper", "ctor"):
+                        n += 1
+                        yield {"sub": sub, "route": route, "tc": [0x123, 0x234, 0, "ctor"], "step": [0x0102, sw] if sw else None,
+                               "fail": [[(1 << (8 * ew)) - 2, ew], [dl, n % 251]], "tslen": T, "usw": sw or 1, "uew": ew,
+                               "tm": tm_diag(n) if route == "ctor" else [E11[n % 8], 0, 0, 0, 0]}
+
+
 def run_shard(item):
+    if item.get("kind") == "s1big":
+        rec = Rec(PROPERTY, item)
+        for c in s1_big_cases():
+            check_s1(rec, c)
+            rec.count("largest_failure_reports")
+        return rec.result()
     if item.get("kind") == "ridhist":
         rec = Rec(PROPERTY, item)
         run_ridhist(rec, item)
